@@ -95,6 +95,7 @@ func (e *Enc) call(fr *Frame, x *ssa.Call, st *State) {
 		return
 	}
 	e.note("call without contract, not inlinable: " + shortFuncName(callee))
+	e.derivedStackNeed(fr, x, callee, args, st)
 	e.havocResults(fr, x, "call_"+callee.Name())
 	for _, a := range args {
 		e.markEscaped(a.t(), 0)
@@ -237,7 +238,11 @@ func (e *Enc) applyContract(fr *Frame, x *ssa.Call, callee *ssa.Function, con *F
 			e.contractError(fr, "callpre:"+name, err)
 			continue
 		}
-		q := e.oblige("callpre", name+"."+clauseLabel("requires", k, cl), st, t, x.Pos(), e.inputVals()...)
+		site := e.srcText(fr.fn, x.Pos(), isCallExpr)
+		if len(site) > 48 {
+			site = site[:48]
+		}
+		q := e.oblige("callpre", name+"."+clauseLabel("requires", k, cl)+":"+site, st, t, x.Pos(), e.inputVals()...)
 		q.Text = cl.text
 	}
 	e.havocAssigns(fr, con, env, st, args, "call_"+callee.Name())
